@@ -27,7 +27,7 @@ SPEC = dict(
     ],
     required=["test:accepted", "test:rejected", "update:accepted", "update:rejected", "setver:equal:rejected",
               "setver:lower:rejected", "setver:malformed:rejected", "setver:pep-equal:rejected", "korder_checked",
-              "update_scope:default", "update_scope:global", "update_scope:branch", "fetch_failure_cases"],
+              "update_scope:default", "update_scope:global", "update_scope:branch", "fetch_failure_cases", "bad_date_cases"],
     anchors=[("cli", "_is_valid_version"), ("v2version", "incr"), ("cli", "update"), ("cli", "test")],
 )
 
@@ -291,6 +291,17 @@ def run_update(ctx, case, R, tdy):
             date = _state_date(start_state, tdy) + dt.timedelta(R.choice(gen.DATE_OFFSETS))
             args = updates.update_args(fl, date)
             flagkey = "".join("1" if fl.get(f) else "0" for f in gen.FLAG_NAMES)
+        bad_date = None
+        if R.random() < 0.06:
+            # malformed / contradictory date arguments: the invocation must be refused, nothing may change
+            bad_date = R.choice([["--date", "2021-02-30"], ["--date", "junk"], ["--date", "2021-13-01"],
+                                 ["--date", "21-01-01x"], ["--pin-date", "--date", "2021-01-01"]])
+            args = [a for a in args if a not in ("--pin-date",)]
+            if "--date" in args:
+                i = args.index("--date")
+                del args[i:i + 2]
+            args += bad_date
+            ctx.count("bad_date_cases")
         if dry:
             args.append("--dry")
         if cli_scope:
@@ -308,6 +319,8 @@ def run_update(ctx, case, R, tdy):
         judge(ctx, "update", case, ast, logged_old if logged_old is not None else start_text, res, announced, cls,
               (ref.shape(ast), flagkey, dry, fake is not None),
               {"argv": args, "exit": res.exit_code, "announced": announced, "start": start_text, "vp": proj.vp})
+        if bad_date and res.exit_code == 0:
+            ctx.violation("other:bad_date_argument_accepted", f"{args}: exit 0", observed=res.brief())
         changed = harness.diff_snapshots(before, after)
         wset = harness.writes_inside(res, d)
         if res.exit_code != 0 or dry:
